@@ -103,6 +103,7 @@ pub enum Mut {
     MoveRef(&'static str, &'static str, String), // from map, to map, referent (payload adapted)
     RemoveRef(&'static str, String),
     AddSelf(String, String),
+    AddUnrev(String, u64), // referent (possibly served elsewhere already), sub_proof_index
     EditRevealed(String, Option<String>, Option<String>), // referent, raw, encoded
     EditGroupValue(String, String, Option<String>, Option<String>),
     AddGroupValue(String, String, String, String), // referent, extra name, raw, encoded
@@ -119,6 +120,7 @@ pub enum Mut {
     WMethod(usize, String),
     WCredSwap(usize, usize),
     WCredDrop(usize),
+    WCredAppend(Value, vw::Prov), // a credential (with its proof) taken from another W3C presentation, appended
 }
 
 fn bump_decimal(s: &str) -> String {
@@ -199,6 +201,9 @@ fn apply_legacy(doc: &mut Value, provs: &mut Vec<Prov>, agg: &mut AggProv, m: &M
         }
         Mut::AddSelf(r, v) => {
             doc["requested_proof"]["self_attested_attrs"][r] = json!(v);
+        }
+        Mut::AddUnrev(r, i) => {
+            doc["requested_proof"]["unrevealed_attrs"][r] = json!({"sub_proof_index": i});
         }
         Mut::EditRevealed(r, raw, enc) => {
             if let Some(e) = doc["requested_proof"]["revealed_attrs"].get_mut(r) {
@@ -300,6 +305,12 @@ fn apply_w3c(p: &mut W3CPresentation, provs: &mut Vec<Prov>, m: &Mut) {
                 }
             }
         }
+        Mut::WCredAppend(vcj, prov) => {
+            if let Ok(vc) = serde_json::from_value(vcj.clone()) {
+                p.verifiable_credential.push(vc);
+                provs.push(prov.clone());
+            }
+        }
         Mut::WIssuer(i, s) => {
             if let Some(vc) = p.verifiable_credential.get_mut(*i) {
                 vc.issuer = anoncreds::data_types::issuer_id::IssuerId::new_unchecked(s.clone());
@@ -399,6 +410,9 @@ pub fn run_job(w: &World, j: &VJob) -> Option<(String, Value)> {
             let doc2 = serde_json::to_value(&p2).unwrap();
             let out = vw::verify_legacy(&p2, &vreq, &bctx);
             let base = base_req.map(|r| vw::verify_legacy(&p2, &r, &bctx) == "accept");
+            if std::env::var("AVH_DEBUG_CLASS").map(|c| j.class.contains(&c)).unwrap_or(false) {
+                eprintln!("VDEBUG class={} muts={:?} impl={} base={:?} request={}", j.class, j.muts, out, base, serde_json::to_string(&vreq).unwrap_or_default());
+            }
             let n = doc2["proof"]["proofs"].as_array().map(|a| a.len()).unwrap_or(0);
             if provs.len() != n {
                 return None;
@@ -817,6 +831,24 @@ fn c05_jobs(r: &mut Rng, w: &World, thorough: bool) -> Vec<VJob> {
         j.holder = 1;
         j.class = "other-holder-honest".into();
         jobs.push(j);
+        // W3C: a credential taken from ANOTHER presentation (other holder / same holder, other request) appended; it
+        // serves no item of the request
+        if fmt == Fmt::W3C {
+            for (cred_b, holder_b, attr_b) in [(3usize, 1usize, "age"), (2, 0, "zipcode"), (3, 1, "name")] {
+                let spec_a = ReqSpec::new(NONCE).attr("a_name", "name");
+                let rf = format!("a_{}", attr_b);
+                let spec_b = ReqSpec::new(NONCE).attr(&rf, attr_b);
+                let Some(rb) = spec_b.build() else { continue };
+                let Some((pb, provb, _)) = vw::make_w3c(w, &rb, &[pick(cred_b, &[(rf.as_str(), true)], &[], None)], holder_b) else { continue };
+                let (Some(vc), Some(pv)) = (pb.verifiable_credential.first(), provb.first()) else { continue };
+                let mut j = job("w3c-foreign-credential-appended", fmt, &spec_a, &spec_a, vec![pick(0, &[("a_name", true)], &[], None)], w);
+                j.muts = vec![Mut::WCredAppend(serde_json::to_value(vc).unwrap(), pv.clone())];
+                jobs.push(j.clone());
+                // ... and with its revealed value rewritten
+                j.muts.push(Mut::WSubjectSet(1, attr_b.into(), json!("Mallory")));
+                jobs.push(j);
+            }
+        }
         // another credential definition registered under the id the presentation names
         for s in shapes().iter().filter(|s| s.3.is_empty() || fmt == Fmt::Legacy) {
             for (id_i, obj_i) in [(0usize, 3usize), (0, 1), (2, 0), (3, 0), (1, 0)] {
@@ -1132,6 +1164,21 @@ fn c06_jobs(r: &mut Rng, w: &World, thorough: bool) -> Vec<VJob> {
                 j.muts = if fmt == Fmt::Legacy { vec![Mut::IdentSet(0, "schema_id", json!(vw::SCHEMA_IDS[2]))] } else { vec![Mut::WIdent(0, "schema_id", json!(vw::SCHEMA_IDS[2]))] };
                 jobs.push(j.clone());
                 j.muts = if fmt == Fmt::Legacy { vec![Mut::IdentSet(0, "cred_def_id", json!(vw::CD_IDS[3]))] } else { vec![Mut::WIdent(0, "cred_def_id", json!(vw::CD_IDS[3]))] };
+                jobs.push(j);
+            }
+        }
+        // legacy: a referent listed twice - revealed from one credential AND unrevealed under another; the restriction
+        // is true of the credential of the unrevealed entry only, the value shown comes from the other one
+        if fmt == Fmt::Legacy {
+            let spec = ReqSpec::new(NONCE).attr("a_name", "name").attr("a_zip", "zipcode");
+            let picks = vec![pick(0, &[("a_name", true)], &[], None), pick(2, &[("a_zip", true)], &[], None)];
+            for q in [json!({"cred_def_id": vw::CD_IDS[2]}), json!({"schema_id": vw::SCHEMA_IDS[1]}), json!({"cred_def_id": vw::CD_IDS[0]}), json!({"$not": {"cred_def_id": vw::CD_IDS[0]}})] {
+                let verify = spec.clone().restr("a_name", q);
+                let mut j = job("restriction:referent-revealed-and-unrevealed", fmt, &spec, &verify, picks.clone(), w);
+                j.base = Base::StripRestrictions;
+                j.muts = vec![Mut::AddUnrev("a_name".into(), 1)];
+                jobs.push(j.clone());
+                j.muts = vec![Mut::AddUnrev("a_name".into(), 0)];
                 jobs.push(j);
             }
         }
